@@ -13,15 +13,26 @@ type WalkProperty struct {
 
 type WalkCallback func(schema WalkProperty) error
 
+// WalkSchemaFields calls callback for every property reachable from root
+// through object and oneof fields, with the path of JSON names leading to it.
+// A schema which is already being walked further up the same path is not
+// entered again, so recursive schemas give each property once per acyclic
+// path.
 func WalkSchemaFields(root RootSchema, asClient bool, callback WalkCallback) error {
-	err := walkSchemaFields(root, asClient, callback, nil)
+	err := walkSchemaFields(root, asClient, callback, nil, nil)
 	if err != nil {
 		return err
 	}
 	return nil
 }
 
-func walkSchemaFields(root RootSchema, asClient bool, callback WalkCallback, path []string) error {
+func walkSchemaFields(root RootSchema, asClient bool, callback WalkCallback, path []string, walking []RootSchema) error {
+	for _, ancestor := range walking {
+		if ancestor == root {
+			return nil
+		}
+	}
+	walking = append(walking, root)
 
 	var properties PropertySet
 	switch rt := root.(type) {
@@ -50,11 +61,11 @@ func walkSchemaFields(root RootSchema, asClient bool, callback WalkCallback, pat
 
 		switch st := prop.Schema.(type) {
 		case *ObjectField:
-			if err := walkSchemaFields(st.Ref.To, asClient, callback, propPath); err != nil {
+			if err := walkSchemaFields(st.Ref.To, asClient, callback, propPath, walking); err != nil {
 				return err // not wrapped, the path is already in the error above
 			}
 		case *OneofField:
-			if err := walkSchemaFields(st.Ref.To, asClient, callback, propPath); err != nil {
+			if err := walkSchemaFields(st.Ref.To, asClient, callback, propPath, walking); err != nil {
 				return err // not wrapped, the path is already in the error above
 			}
 		}
